@@ -105,6 +105,7 @@ WdTo(h, i, w, t) == [p \in DOMAIN w |-> IF p \in Tracked(h, i) \/ t[p] # NoCell 
 \* WorkTree.stage leaves both entries -- outside this property, see the evidence notes)
 StageOK(i, w, P, p) ==
     /\ \A r \in Present(w) : ~Above(r, p)          \* git refuses a pathspec below a file or link
+    /\ w[p] # NoCell => ~IsDir(i, p)               \* a file where the index has a directory: entries to evict
     /\ \A q \in Covered(P, p) : w[q] # NoCell =>
           \A r \in Present(i) : Clash(r, q) => r \in Covered(P, p)
 UnstageOK(h, i, p) ==
@@ -271,6 +272,9 @@ StageAllAfterCheckout ==
 \* staging everything status names makes the index equal the directory: this is what ties the
 \* exactness of status to `checkout; add` reproducing the tree.  (False under ModeBlind.)
 StageAllComplete == last.act = "StageAll" => index = wd
+
+\* ... and so does staging one path or directory, for what lies at or below it
+StageComplete == last.act = "Stage" => \A q \in Covered(Paths, last.p) : index[q] = wd[q]
 
 \* the default presentation of untracked paths names every untracked file exactly once
 NormalCovers ==
